@@ -336,6 +336,13 @@ T["builtins.None"] = NONE
 @op("warnings.warn")
 def _warn(it, ctx, a, k):
     ctx.notes.append("warnings.warn")
+    if getattr(it, "warn_may_raise", False):
+        # under a warnings-as-errors filter warnings.warn raises the warning: a nondeterministic raise point
+        import z3
+        from .values import fresh
+        if ctx.branch(z3.Bool(fresh("warn_raises"))):
+            cat = a[1] if len(a) > 1 else k.get("category")
+            raise PyRaise(VExc(getattr(cat, "name", "UserWarning").split(".")[-1], "warning promoted to error"))
     return NONE
 
 
